@@ -295,7 +295,7 @@ class C14:
         self._setup()
         rng = random.Random(f"{sh['seed']}/C14/{sh['index']}")
         if sh["kind"] == "sqlite":
-            for it in range(sh["n"]):
+            for it in harness.budgeted(range(sh["n"]), rec):
                 n = rng.choice([0, 1, 2, 3, 5, 10, 50, 200])
                 base = 1.6e9
                 rows = [base + i * 10 + rng.random() for i in range(n)]
@@ -309,7 +309,7 @@ class C14:
                     rec.sample({k: (v if k != "rows" else v[:5]) for k, v in case.items()}, "sqlite")
                 self.run_case(case, rec)
             return
-        for it in range(sh["n"]):
+        for it in harness.budgeted(range(sh["n"]), rec):
             now = time.time()
             files = self.make_collection(rng, now)
             unit = rng.choice(UNITS)
